@@ -1955,6 +1955,12 @@ def run(tier):
               'and of the predicates is folded on literal sorts)',
               'a cycle of accepted rewrites: the same inputs are visited for ever')
     chk.guard(rule_r18, chk, prog)
+    from .. import probes
+    chk.guard(probes.report_constants, chk, prog, 'C03.R19',
+              'is_const, folded on literal terms, holds for the constants '
+              'of every theory and for nothing else (symbols, quoted '
+              'symbols, applications)',
+              'the guards that keep constants and variables from being rewritten into each other for ever test the wrong thing')
     extra = None
     if tier == 'thorough':
         from .. import selftest
